@@ -3,6 +3,7 @@ package main
 import (
 	"fmt"
 	"sort"
+	"strings"
 	"time"
 
 	"github.com/akrylysov/pogreb/zzverif/explore"
@@ -207,9 +208,9 @@ func runC06(c *explore.Ctx) {
 func runC09(c *explore.Ctx) {
 	var spaces []plSpace
 	if c.Thorough() {
-		spaces = []plSpace{{"E", "ROLL", 5}, {"E", "ROLL+SW", 5}, {"E", "BIGC", 5}, {"E", "BIGC+SW", 4}, {"S2", "ROLL", 4}, {"CH", "BIGC", 3}, {"SP", "BIGC", 3}}
+		spaces = []plSpace{{"E", "ROLL", 5}, {"E", "ROLL+SW", 5}, {"E", "BIGC", 5}, {"E", "BIGC+SW", 4}, {"S2", "ROLL", 4}, {"CH", "BIGC", 3}, {"SP", "BIGC", 3}, {"S2!unclean", "ROLL", 3}, {"CH!unclean", "BIGC", 2}, {"T!unclean", "BIGC", 2}}
 	} else {
-		spaces = []plSpace{{"E", "ROLL", 4}, {"E", "ROLL+SW", 3}, {"E", "BIGC", 4}, {"E", "BIGC+SW", 3}, {"S2", "ROLL", 3}, {"SP", "BIGC", 2}, {"CH", "BIGC", 2}}
+		spaces = []plSpace{{"E", "ROLL", 4}, {"E", "ROLL+SW", 3}, {"E", "BIGC", 4}, {"E", "BIGC+SW", 3}, {"S2", "ROLL", 3}, {"SP", "BIGC", 2}, {"CH", "BIGC", 2}, {"S2!unclean", "ROLL", 2}, {"CH!unclean", "BIGC", 1}}
 	}
 	runPowerSpaces(c, spaces, true)
 }
@@ -221,15 +222,24 @@ func runPowerSpaces(c *explore.Ctx, spaces []plSpace, afterCloseOnly bool) {
 		if c.Expired() || c.NViolations() > 0 {
 			return
 		}
-		base, err := explore.GetBase(sp.Base, cfgPL(sp.Cfg), 0)
+		bname := strings.TrimSuffix(sp.Base, "!unclean")
+		base, err := explore.GetBase(bname, cfgPL(sp.Cfg), 0)
 		if err != nil {
 			c.HarnessError("%v", err)
+		}
+		if bname != sp.Base {
+			// the same (durable) image left unclean: the history's first Open is a recovery
+			b2 := *base
+			b2.Image = base.Image.Clone()
+			b2.Image.SetBytes(explore.DBPath+"/lock", nil)
+			b2.Name = sp.Base
+			base = &b2
 		}
 		explore.PinSeed(0)
 		memo := recMemo{}
 		sp := sp
 		letters := c06Letters()
-		if sp.Base != "E" && sp.Base != "S2" && sp.Base != "T" {
+		if bname != "E" && bname != "S2" && bname != "T" {
 			letters = []explore.Op{{Kind: explore.Put, Key: base.Alpha[0]}, {Kind: explore.Put, Key: base.Alpha[len(base.Alpha)-3]}, {Kind: explore.Delete, Key: base.Alpha[0]}}
 			if base.Keys["o0"] != nil {
 				// a key whose slot lives in an overflow bucket: updating it rewrites overflow.pix in place
@@ -378,9 +388,16 @@ func replayPower(rep map[string]interface{}) (string, error) {
 		return "", err
 	}
 	sp := plSpace{Base: fmt.Sprint(rep["base"]), Cfg: fmt.Sprint(rep["cfg"])}
-	base, err := explore.GetBase(sp.Base, cfgPL(sp.Cfg), 0)
+	base, err := explore.GetBase(strings.TrimSuffix(sp.Base, "!unclean"), cfgPL(sp.Cfg), 0)
 	if err != nil {
 		return "", err
+	}
+	if strings.HasSuffix(sp.Base, "!unclean") {
+		b2 := *base
+		b2.Image = base.Image.Clone()
+		b2.Image.SetBytes(explore.DBPath+"/lock", nil)
+		b2.Name = sp.Base
+		base = &b2
 	}
 	explore.PinSeed(0)
 	h := runPLHistory(base, word)
